@@ -26,8 +26,10 @@ Init == IF Mode = "forms"
                    c = [kind |-> "form", type |-> "Bool", form |-> f, int |-> Zero, len |-> 0, flag |-> b, admissible |-> TRUE]
              \/ \E n \in ByteLens, f \in BytesForms :
                    c = [kind |-> "form", type |-> "Bytes", form |-> f, int |-> Zero, len |-> n, flag |-> FALSE, admissible |-> TRUE]
-             \/ \E n \in {29, 57}, f \in AddressForms :
-                   c = [kind |-> "form", type |-> "Address", form |-> f, int |-> Zero, len |-> n, flag |-> FALSE, admissible |-> TRUE]
+             \* the first byte of an address (its kind and network) is what its hex form starts with: payment key / script,
+             \* base, reward key / script on both networks, and 0xab for a short all-letters-then-digit string
+             \/ \E n \in {2, 29, 57}, h \in {96, 0, 112, 113, 224, 225, 240, 241, 171}, f \in AddressForms :
+                   c = [kind |-> "form", type |-> "Address", form |-> f, int |-> FromInt(h), len |-> n, flag |-> FALSE, admissible |-> TRUE]
              \/ \E n \in {0, 1, 32}, ix \in {0, 1, 65535} :
                    c = [kind |-> "form", type |-> "UtxoRef", form |-> "txid_hash_index", int |-> FromInt(ix), len |-> n, flag |-> FALSE, admissible |-> TRUE]
              \/ \E t \in Types, s \in BadShapes :
